@@ -860,7 +860,7 @@ class Interp:
             if w % 8:
                 raise CUnsupported("sub-byte memory access")
             a = self.convert(self.ev(args[0]), UINT)
-            v = self.convert(self.ev(args[1]), (False, w))
+            v = self.convert(self.ev(args[1]), (m.group(1) == "s", w)) & mask(w)  # converted to the type the store names
             for i in range(w // 8):
                 self.w.mem[(a + i) & 0xFFFFFFFF] = (v >> (8 * i)) & 0xFF
             return (("void",), None)
